@@ -402,6 +402,13 @@ func c05Run(c *C) {
 					if fixedShared != nil {
 						tpl, op = fixedShared, "execute-shared-fixed-template"
 					}
+				case 5:
+					// the cache is emptied (all of it, or one name) while others fetch from it
+					if gr.Bool() {
+						set.CleanCache()
+					} else {
+						set.CleanCache("/main.tpl", "/nosuch.tpl")
+					}
 				}
 				if gr.Intn(8) == 0 && onSet {
 					m, berr := shared.ExecuteBlocks(pool[ci], sharedNames)
